@@ -60,9 +60,9 @@ func genC20(seed int64, tier string) []caseOut {
 					tail = tail[len(tail)-1500:]
 				}
 				out = append(out, caseOut{
-					Coq:    fmt.Sprintf("(mk_c20 %s 0%%nat 0%%nat %d%%nat true)", cStr("stress-binary-failed"), races),
-					Rec:    map[string]interface{}{"scenario": "stress binary produced no result", "stderr_tail": tail},
-					Label:  "stress:failed", NonTri: "failed",
+					Coq:   fmt.Sprintf("(mk_c20 %s 0%%nat 0%%nat %d%%nat true)", cStr("stress-binary-failed"), races),
+					Rec:   map[string]interface{}{"scenario": "stress binary produced no result", "stderr_tail": tail},
+					Label: "stress:failed", NonTri: "failed",
 				})
 			}
 		}
